@@ -14,8 +14,11 @@ Go's sorts are modelled by a structural insertion sort wherever a model needs on
 * `SV.ProxySearch.insertS` / `SV.ProxySearch.sortS rev`   (Model/ProxySearch.lean, C16: the same `sort.Sort` of `MergeQPRs`)
 * `SV.C17Compose.insertBy` (+ `foldr`)                    (Model/C17Compose.lean, C17: `sort` in `TokenLIDs.GetLIDs`)
 
-All five are the SAME algorithm (insert before the first element that must not precede the new one): each equals
-`SV.Spec.sortBy` with the comparison spelled out; all inputs.  (The two models of `MergeQPRs` themselves are bridged
+All five are the SAME algorithm (`insertBy le x`: insert `x` before the first `y` with `le x y`): each equals
+`SV.Spec.sortBy` with its comparison `le` spelled out; all inputs.  The comparisons differ on ties: C05's `le` is
+non-strict (a new key goes BEFORE equal keys), C16's `before rev` is strict (a new entry goes BEHIND equal IDs, so with
+`foldr` equal IDs end up in reverse input order - see the note at `SV.ProxySearch.insertS`); key sequences agree
+(`SV.ProxyCompose.merged_keys`), which entry of a run of equal IDs survives `dedup` is model-specific.  (The two models of `MergeQPRs` themselves are bridged
 in Model/ProxyCompose.lean: `merged_keys`, `merge_ids_agree`, `merge_total_agree`, `page_agree`.)
 -/
 namespace SV.Consistency
